@@ -242,7 +242,14 @@ def part_generated(ctx, n):
     copies = {}
     for t in collect_types(ast2):
       copies.setdefault(pt.Print(t) + type(t).__name__, t)
-    pool = pool + extra[:12] + list(copies.values())[:8]
+    _, pytd, _, _, _ = _mods()
+    singles = [pytd.UnionType((t,)) for t in pool[:5]]
+    resolved = []
+    seen_r = {}
+    for t in collect_types(fresh_resolved()):
+      seen_r.setdefault(pt.Print(t) + type(t).__name__, t)
+    resolved = list(seen_r.values())[:8]     # ClassType flavours of the same
+    pool = pool + extra[:12] + list(copies.values())[:8] + singles + resolved
     law_pairs(ctx, pool, {"kind": "law", "text": text})
 
   hyp_run(ctx, gen_pyi.stub(), body, n, label="gen")
@@ -283,6 +290,16 @@ def part_fixed_law(ctx):
                      (pytd.UnionType((s, i)), pytd.UnionType((i, s)))),
       i, pytd.NamedType("int"), pytd.ClassType("int"), pytd.AnythingType(),
       pytd.NothingType(),
+      # single-member unions (they arise from flattening / de-duplication)
+      pytd.UnionType((i,)), pytd.UnionType((i, i)), pytd.UnionType((s,)),
+      pytd.IntersectionType((i,)),
+      pytd.GenericType(pytd.NamedType("list"), (pytd.UnionType((s,)),)),
+      pytd.GenericType(pytd.NamedType("list"), (s,)),
+      pytd.GenericType(pytd.NamedType("list"), (i,)),
+      pytd.GenericType(pytd.ClassType("list"), (i,)),
+      pytd.Literal(1), pytd.Literal(True), pytd.Literal("1"),
+      pytd.TupleType(pytd.NamedType("tuple"), (i,)),
+      pytd.GenericType(pytd.NamedType("tuple"), (i,)),
   ]
   law_pairs(ctx, pool, {"kind": "law-fixed"})
 
@@ -294,11 +311,11 @@ def run_shard(ctx):
   part_bundled(ctx)
   part_generated(ctx, 25 if ctx.quick() else 1500)
   try:
-    from props import c12_programs
+    from props import progs_c12
   except ImportError:
-    c12_programs = None
-  if c12_programs:
-    c12_programs.run(ctx, roundtrip)
+    progs_c12 = None
+  if progs_c12:
+    progs_c12.run(ctx, roundtrip)
 
 
 def replay(ctx, case):
